@@ -331,6 +331,7 @@ class MarkdownNormalizer(Renderer):
         self._in_heading: bool = False  # Track if we're rendering a heading
         self._list_spacing: ListSpacing = list_spacing
         self._current_list_tight: bool = False  # Whether current list should render tight
+        self._list_depth: int = 0  # Number of lists being rendered around the current position
 
     @override
     def __enter__(self) -> MarkdownNormalizer:
@@ -420,6 +421,11 @@ class MarkdownNormalizer(Renderer):
         # yet, this list is the first content on that line: no item break may come before it.
         if self._prefix != self._second_prefix:
             self._suppress_item_break = True
+        # A loose list nested in an item of a tight list must not be set off by a blank line
+        # either: a blank line between two blocks of an item would make the outer list loose.
+        if self._list_depth > 0 and old_tight:
+            self._suppress_item_break = True
+        self._list_depth += 1
 
         for i, child in enumerate(element.children):
             # Configure the appropriate prefix based on list type
@@ -439,6 +445,7 @@ class MarkdownNormalizer(Renderer):
             self._prefix = self._second_prefix
 
         # Restore the previous list's tightness (for nested lists)
+        self._list_depth -= 1
         self._current_list_tight = old_tight
         self._prefix = self._second_prefix
         return "".join(result)
